@@ -2,7 +2,7 @@
 from .fe import FeFamily
 from .c18_extra import ProxyPeerMut, BeSrvMalformed, GpuFamily   # C18 machinery: proxy / GPU proxy / frontend request server
 
-PROPS_MODULES = ["C06", "C06b", "DispatchFe", "ProxyOps"]
+PROPS_MODULES = ["C06", "C06b", "DispatchFe", "ProxyOps", "FeRecv"]
 RULE = ("family `fe` (peer mode): the raw peer answers each request with the correct reply or with the correct reply mutated in one "
         "field (code, REPLY flag, each other flag bit, version, size, a body byte, 0..3 descriptors, truncation, extra bytes) or "
         "with random strings, then closes; the frontend may return success only for a conforming reply and then exactly the "
